@@ -1,4 +1,4 @@
-import NeumannModel.Vault.Inv
+import NeumannModel.Vault.AtRest
 /-
   C14 — "Vault: no access without a live grant, no plaintext at rest".
   ONLY property statements and their non-vacuity examples; helpers are in `Bfs.lean` / `Lemmas.lean`.
@@ -228,6 +228,21 @@ example :
     (step (step s 1 (.delete 0 1)).1 1 (.get 1 1)).2 = .err .denied := by decide
 
 /-! ## at rest -/
+
+/-- secret VALUES: for every configuration and every history, no record of the store (this includes the audit
+    records, the persisted TTL tracker and the delegation records) exposes a secret value, neither in its key nor
+    in any field.  "Type-level": values enter the store only through `blobRec`'s `Field.cipher`; the statement is
+    relative to the hypothesis, built into `Field.reveals`, that AES-GCM ciphertext reveals nothing. -/
+theorem at_rest_no_plain_value (pol : Policy) (a b c : Nat) (h : List (Nat × Op)) (v : Nat) :
+    ∀ r ∈ (run (init pol a b c) h).store,
+      r.key.reveals (.value v) = false ∧ ∀ f ∈ r.fields, f.2.reveals (.value v) = false := by
+  intro r hr
+  have hsv := run_sv h (init pol a b c) (fun _ hx => nomatch hx)
+  exact ⟨key_reveals_no_value _ _, fun f hf => hsv r hr f hf v⟩
+
+/-- non-vacuity: the value IS in the store — as ciphertext only -/
+example : (run (init) [(0, .set 0 1 7 3), (0, .rotate 0 1 9 3)]).store.any
+    (fun r => r.fields.any (fun f => f.2 = .cipher (.value 9))) = true := by decide
 
 /-- FULL shape property: no store record (key or field) ever exposes a secret value or a secret name -/
 def AtRestShape : Prop :=
